@@ -167,6 +167,9 @@ def role_setup(role):
         return [], {}
     if role == 'web':
         return ['--enable-web-server'], {'plugins': web_plugins([])}
+    if role == 'websocket':
+        from harness import testplugins
+        return ['--enable-web-server'], {'plugins': [testplugins.ws_sink_plugin()]}
     return ['--enable-reverse-proxy'], {'plugins': [reverse_plugin()]}
 
 
@@ -232,6 +235,21 @@ def adversaries(rnd, quick):
             raw = (b'POST http://a.example/x HTTP/1.1' if role == 'forward' else b'POST /a/r1 HTTP/1.1') + \
                 b'\r\nHost: a.example\r\nContent-Length: 3\r\nContent-Length: ' + second + b'\r\n\r\nabcdefghij'
             out.append(('%s: input with Content-Length 3 then %s' % (role, second.decode()), role, [('c', raw), ('u', 1, resp)], 'accept'))
+    # an upgraded WebSocket connection whose segments end inside a frame (header octet alone, extended length / masking key cut,
+    # partial payload, a frame followed by one octet of the next, absurd 64-bit length), left hanging or closed afterwards
+    up = b'GET /ws HTTP/1.1\r\nHost: w\r\nUpgrade: websocket\r\nConnection: Upgrade\r\nSec-WebSocket-Key: dGhlIHNhbXBsZSBub25jZQ==\r\n' \
+         b'Sec-WebSocket-Version: 13\r\n\r\n'
+    whole = b'\x81\x85\x01\x02\x03\x04' + bytes(b ^ k for b, k in zip(b'hello', b'\x01\x02\x03\x04\x01'))
+    frags = [('one octet', b'\x81'), ('two octets, extended length missing', b'\x81\xfe'), ('masking key cut', b'\x81\x85\x01\x02'),
+             ('payload cut', b'\x81\x05hel'), ('a frame and one octet of the next', whole + b'\x81'), ('a frame', whole),
+             ('64-bit length of 2^63, no payload', b'\x82\xff\x80' + b'\x00' * 7), ('16-bit length cut', b'\x82\x7e\x01'),
+             ('reserved opcode, empty', b'\x8f\x00'), ('close frame', b'\x88\x80\x00\x00\x00\x00')]
+    for what, frag in frags:
+        for tail in ([], [('c', b'\x01')], [('cclose',)], [('c', whole), ('cclose',)]):
+            if quick and tail and rnd.random() > 0.5:
+                continue
+            out.append(('websocket: upgraded connection, segment = %s%s' % (what, ', then %s' % tail[-1][0] if tail else ''), 'websocket',
+                        [('c', up), ('c', frag)] + tail, 'accept'))
     # arbitrary / malformed inputs
     for raw, kind in c06_inputs(rnd, 60 if quick else 600):
         role = rnd.choice(['forward', 'web'])
